@@ -1610,3 +1610,56 @@ Proof.
   split; [reflexivity|]. split; [exact Ho|]. split; [exact Hs|].
   apply displayed_defs_overloaded; assumption.
 Qed.
+
+(* ---- what is handed back when unstringing fails: the in-place, partly transformed original ---- *)
+Fixpoint after_node_go (l : list expr) : list expr :=
+  match l with
+  | [] => []
+  | k :: r => match visit k with Some k' => k' :: after_node_go r | None => after k :: r end
+  end.
+Fixpoint after_list_go (l : list expr) : list expr :=
+  match l with
+  | [] => []
+  | k :: r => match visit k with Some _ => after k :: after_list_go r | None => after k :: r end
+  end.
+Lemma after_node t ks : after (ENode t ks) = ENode t (after_node_go ks).
+Proof. reflexivity. Qed.
+Lemma after_elist l :
+  after (EList l) = match visit (EList l) with Some l' => l' | None => EList (after_list_go l) end.
+Proof. reflexivity. Qed.
+
+Lemma Forall2_partly_refl l : Forall2 partly l l.
+Proof. induction l; constructor; [apply P_keep | assumption]. Qed.
+
+Theorem after_partly : forall e, partly e (after e).
+Proof.
+  apply expr_ind'.
+  - apply P_keep.
+  - intros. apply P_keep.
+  - intros. apply P_keep.
+  - intros v s IHv IHs. cbn [after].
+    destruct (visit v) as [v'|] eqn:Ev.
+    + destruct (is_literal_head v') eqn:El.
+      * apply P_sub; [exact IHv | apply P_keep | reflexivity].
+      * apply P_sub; [exact IHv | exact IHs|].
+        intros v2 H2 Hl. apply (proj1 (visit_is_unstrung v)) in H2. congruence.
+    + apply P_sub; [exact IHv | apply P_keep | reflexivity].
+  - intros. apply P_keep.
+  - intros v a IH. cbn [after]. destruct (visit v) as [v'|] eqn:Ev.
+    + apply P_attr. apply P_full. apply (proj1 (visit_is_unstrung v)). exact Ev.
+    + apply P_attr. exact IH.
+  - intros t ks HF. rewrite after_node. apply P_node.
+    induction ks as [|k r IH]; [constructor|].
+    inversion HF as [|? ? Hk Hr]; subst. cbn [after_node_go].
+    destruct (visit k) as [k'|] eqn:Ek.
+    + constructor; [apply P_full; apply (proj1 (visit_is_unstrung k)); exact Ek | apply IH; exact Hr].
+    + constructor; [exact Hk | apply Forall2_partly_refl].
+  - intros l HF. rewrite after_elist. destruct (visit (EList l)) as [l'|] eqn:El.
+    + apply P_full. apply (proj1 (visit_is_unstrung (EList l))). exact El.
+    + apply P_list. clear El.
+      induction l as [|k r IH]; [constructor|].
+      inversion HF as [|? ? Hk Hr]; subst. cbn [after_list_go].
+      destruct (visit k) as [k'|] eqn:Ek.
+      * constructor; [exact Hk | apply IH; exact Hr].
+      * constructor; [exact Hk | apply Forall2_partly_refl].
+Qed.
